@@ -26,7 +26,8 @@ from vlib import Case, Problem, VERIF, LEAN, log  # noqa: E402
 
 
 def registry():
-    """property -> plugin module name, from the PROPERTIES table of every tools/comp_*.py"""
+    """property -> [plugin module names], from the PROPERTIES table of every tools/comp_*.py (several
+    components may serve one property: they are run one after the other and their evidence is merged)"""
     reg = {}
     here = os.path.dirname(os.path.abspath(__file__))
     for f in sorted(os.listdir(here)):
@@ -37,7 +38,7 @@ def registry():
                 log("plugin %s failed to import: %s" % (f, e))
                 continue
             for prop in getattr(mod, "PROPERTIES", {}):
-                reg[prop] = f[:-3]
+                reg.setdefault(prop, []).append(f[:-3])
     return reg
 
 
@@ -54,14 +55,68 @@ def main():
     if prop not in reg:
         print("unknown property", prop)
         return 2
-    plugin = importlib.import_module(reg[prop])
+    plugins = [importlib.import_module(m) for m in reg[prop]]
+    if args.replay:
+        comp = json.load(open(args.replay)).get("component")
+        plugins = [p for p in plugins if p.COMPONENT == comp] or plugins[:1]
     t0 = time.time()
-    work = tempfile.mkdtemp(prefix="celma_verif_%s_" % prop)
-    try:
-        return run(plugin, prop, args.tier, seed, work, args.replay, t0)
-    finally:
-        if not args.keep:
-            shutil.rmtree(work, ignore_errors=True)
+    results = []
+    for plugin in plugins:
+        work = tempfile.mkdtemp(prefix="celma_verif_%s_" % prop)
+        try:
+            r = run(plugin, prop, args.tier, seed, work, args.replay, time.time())
+        finally:
+            if not args.keep:
+                shutil.rmtree(work, ignore_errors=True)
+        if args.replay:
+            return r
+        results.append(r)
+    ev = merge_evidence([r["ev"] for r in results])
+    ev["wall_s"] = round(time.time() - t0, 2)
+    vlib.write_json(os.path.join(VERIF, "evidence", prop + ".json"), ev)
+    rc = max(r["rc"] for r in results)
+    for r in results:
+        for l in r["lines"]:
+            print(l)
+    if rc == 0:
+        c = ev["coverage"]
+        print("OK property=%s tier=%s seed=%d theorems=%d evaluations=%d distinct=%d wall=%.1fs" % (
+            prop, args.tier, seed, len(c.get("theorems", [])), c.get("evaluations", 0), c.get("distinct_nontrivial", 0),
+            ev["wall_s"]))
+    return rc
+
+
+def merge_evidence(evs):
+    if len(evs) == 1:
+        return evs[0]
+    ev = dict(evs[0])
+    cov = dict(ev["coverage"])
+    cov["components"] = [e["coverage"].get("component") for e in evs]
+    for e in evs[1:]:
+        c = e["coverage"]
+        for k in ("obligations", "discharged", "evaluations", "distinct_nontrivial"):
+            cov[k] = cov.get(k, 0) + c.get(k, 0)
+        seen = set(cov.get("theorems", []))
+        dup = [t for t in c.get("theorems", []) if t in seen]
+        cov["theorems"] = cov.get("theorems", []) + [t for t in c.get("theorems", []) if t not in seen]
+        cov["obligations"] -= len(dup)
+        cov["discharged"] -= len(dup)
+        cov["checker_cmd"] = cov.get("checker_cmd", "") + " ; " + c.get("checker_cmd", "")
+        cov["trusted_base"] = cov.get("trusted_base", []) + [t for t in c.get("trusted_base", []) if t not in cov.get("trusted_base", [])]
+        cov["rule"] = (cov.get("rule", "") + " || " + c.get("rule", "")).strip(" |")
+        cov["samples"] = cov.get("samples", [])[:4] + c.get("samples", [])[:4]
+        d = dict(cov.get("input_distribution", {}))
+        for k, v in c.get("input_distribution", {}).items():
+            d[k] = d.get(k, 0) + v
+        cov["input_distribution"] = d
+        cov["exhaustive"] = bool(cov.get("exhaustive")) and bool(c.get("exhaustive"))
+        cov["exhaustive_spaces"] = cov.get("exhaustive_spaces", []) + c.get("exhaustive_spaces", [])
+        cov["notes"] = cov.get("notes", []) + c.get("notes", [])
+        cov["broken_obligations_or_ties"] = cov.get("broken_obligations_or_ties", []) + c.get("broken_obligations_or_ties", [])
+        ev["assumptions"] = ev.get("assumptions", []) + [a for a in e.get("assumptions", []) if a not in ev.get("assumptions", [])]
+        ev["violations"] = ev.get("violations", 0) + e.get("violations", 0)
+    ev["coverage"] = cov
+    return ev
 
 
 def run(plugin, prop, tier, seed, work, replay, t0):
@@ -166,7 +221,8 @@ def run(plugin, prop, tier, seed, work, replay, t0):
         return 1 if probs else 0
 
     # ---- 4. correspondence ----------------------------------------------
-    findings = [f for f in vlib.load_findings()["findings"] if f["property"] == prop]
+    findings = [f for f in vlib.load_findings()["findings"]
+                if f["property"] == prop and f.get("component") in (None, plugin.COMPONENT)]
     problems = []
     evaluations = 0
     distinct = set()
@@ -251,6 +307,7 @@ def run(plugin, prop, tier, seed, work, replay, t0):
         cov["exhaustive_spaces"] = exhaustive_note
     cov["notes"] = notes
     cov["repo"] = vlib.repo_state()
+    cov["component"] = plugin.COMPONENT
     cov["broken_obligations_or_ties"] = [list(b) for b in broken]
 
     # ---- 5. decide -------------------------------------------------------
@@ -273,22 +330,16 @@ def run(plugin, prop, tier, seed, work, replay, t0):
                 broken.append(("correspondence %s/%s" % (plugin.COMPONENT, prop), repr(p)))
     if real:
         p = real[0]
-        path = write_replay(prop, tier, seed, p, broken, len(real))
+        path = write_replay(prop, tier, seed, p, broken, len(real), plugin.COMPONENT)
         lines.append("VIOLATION property=%s replay=%s" % (prop, path))
         rc = 1
     elif broken:
-        path = write_replay(prop, tier, seed, None, broken, 0)
+        path = write_replay(prop, tier, seed, None, broken, 0, plugin.COMPONENT)
         lines.append("VIOLATION property=%s replay=%s no-failing-input-found" % (prop, path))
         rc = 1
     ev["violations"] = len(real) + (1 if (broken and not real) else 0)
     ev["wall_s"] = round(time.time() - t0, 2)
-    vlib.write_json(os.path.join(VERIF, "evidence", prop + ".json"), ev)
-    for l in lines:
-        print(l)
-    if rc == 0:
-        print("OK property=%s tier=%s seed=%d theorems=%d evaluations=%d distinct=%d wall=%.1fs" % (
-            prop, tier, seed, len(theorems), evaluations, len(distinct), ev["wall_s"]))
-    return rc
+    return {"rc": rc, "ev": ev, "lines": lines}
 
 
 def default_key(op, result):
@@ -310,10 +361,10 @@ def load_corpus(component, prop):
     return cases
 
 
-def write_replay(prop, tier, seed, problem, broken, nreal):
+def write_replay(prop, tier, seed, problem, broken, nreal, component=""):
     os.makedirs(os.path.join(VERIF, "replays"), exist_ok=True)
-    path = os.path.join(VERIF, "replays", "%s-%s-seed%d.json" % (prop, tier, seed))
-    obj = {"property": prop, "tier": tier, "seed": seed,
+    path = os.path.join(VERIF, "replays", "%s-%s-%s-seed%d.json" % (prop, component, tier, seed))
+    obj = {"property": prop, "component": component, "tier": tier, "seed": seed,
            "rerun": "python3 tools/check.py %s --replay %s" % (prop, path),
            "no_longer_checks": [list(b) for b in broken], "failing_inputs_found": nreal}
     if problem is not None:
